@@ -66,7 +66,8 @@ Theorem C15_to_compact_preserves r q q' d F B F' B' :
   to_compact r q = Ok q' → dim_of r (rq_u q') = Ok d → exact_unit r (rq_u q') F' B' → same_quantity r q q'.
 Proof. exact (compact_same_quantity r q q' d F B F' B'). Qed.
 (** [to_preferred]: the integer programme is a parameter of which only "same dimensionality or
-    the input" is assumed; the proportionality test of [find_simple] uses the product *)
+    the input" is assumed; the proportionality test of [find_simple] uses the product, as pint does
+    since the repair of F96 (75b5cc1): the theorem needs no guard *)
 Theorem C15_find_simple_same_dimensionality r sd prefs u :
   wf sd → find_simple false r sd prefs = Ok (Some u) → dim_of r u = Ok sd.
 Proof. exact (find_simple_sound r sd prefs u). Qed.
@@ -75,8 +76,8 @@ Theorem C15_to_preferred_preserves (mip : reg → rq → list uc → uc) r q q' 
   reg_nz r → wf (rq_u q) → exact_unit r (rq_u q) F B → dim_of r (rq_u q) = Ok d →
   to_preferred mip false r q prefs = Ok q' → (∃ F' B', exact_unit r (rq_u q') F' B') → same_quantity r q q'.
 Proof. intros H. exact (to_preferred_same_quantity mip H r q q' prefs d F B). Qed.
-(** as coded ([p_exps_tail[i] ** s_exps_head]) the theorem fails: the model, like pint, picks
-    (m/s)**2 for m**2*s and the conversion raises DimensionalityError (F96) … *)
+(** the defect repaired by 75b5cc1 (F96): with the power ([p_exps_tail[i] ** s_exps_head]) the
+    theorem fails — (m/s)**2 is picked for m**2*s and the conversion raises DimensionalityError … *)
 Theorem C15_to_preferred_preserves_refuted :
   ∃ q prefs, wfb (rq_u q) = true ∧ exact_unitb default_reg (rq_u q) = true ∧
     (∀ mip, to_preferred mip true default_reg q prefs = Err EDim) ∧
@@ -91,7 +92,7 @@ Proof.
   split; [vm_compute; reflexivity|]. split; [vm_compute; reflexivity|].
   split; [intros mip|]; vm_compute; reflexivity.
 Qed.
-(** … and holds under the guard "the quantity's alphabetically first dimension has exponent 1" *)
+(** … and held only under the guard "the quantity's alphabetically first dimension has exponent 1" *)
 Theorem C15_to_preferred_preserves_guarded (mip : reg → rq → list uc → uc) r q q' prefs d F B :
   (∀ r q prefs, mip r q prefs = rq_u q ∨ dim_of r (mip r q prefs) = dim_of r (rq_u q)) →
   reg_nz r → wf (rq_u q) → exact_unit r (rq_u q) F B → dim_of r (rq_u q) = Ok d → simple_guard d →
@@ -235,18 +236,29 @@ Example C15_compact_range_nonvacuous :
            ∧ rq_m q' = MFin x' ∧ (1 <= Qcabs x')%Qc ∧ (Qcabs x' < pow10 3)%Qc.
 Proof. apply cx_generic. vm_compute. reflexivity. Qed.
 
-(** ** the two defects of pint that the faithful model reproduces *)
-(** F21: a unit whose name has two readings makes [to_compact] fail its own assertion … *)
-Theorem C15_compact_defined_refuted :
+(** ** F21 (repaired by 3fd38de): a unit whose name has two readings *)
+(** the asserting [infer_base_unit] of before the repair fails on dtex; the repaired one takes the
+    first reading and 1500 dtex becomes 1.5 kilodtex, the same quantity … *)
+Theorem C15_compact_assert_refuted :
   (λ r, wfb (rq_u ex_dtex) && exact_unitb r (rq_u ex_dtex)
         && Nat.eqb (length (parse_unit_name r "dtex")) 2
-        && match to_compact r ex_dtex with Err EAssert => true | _ => false end) default_reg = true.
+        && match infer_base_unit_assert r (rq_ord ex_dtex) (rq_u ex_dtex) with Err EAssert => true | _ => false end
+        && match to_compact r ex_dtex, dim_of r (rq_u ex_dtex) with
+           | Ok q', Ok d =>
+               uc_eqb (rq_u q') (mkuc [("kilodtex", mkq 1 1)]) && mag_eqb (rq_m q') (MFin (mkq 3 2))
+               && exact_unitb r (rq_u q') && match dim_of r (rq_u q') with Ok d' => uc_eqb d d' | Err _ => false end
+           | _, _ => false
+           end) default_reg = true.
 Proof. vm_compute. reflexivity. Qed.
-(** … and only that: with one reading per unit [infer_base_unit] is defined *)
-Theorem C15_infer_base_defined_guarded r ord a :
-  (∀ k, k ∈ present a ord → ∃ p b, parse_unit_name r k = (p, b) :: nil) →
-  ∃ res, infer_base_unit r ord a = Ok res.
+(** … [infer_base_unit] is now defined as soon as every name has a reading; the old one needed
+    exactly one *)
+Theorem C15_infer_base_defined r ord a :
+  (∀ k, k ∈ present a ord → parse_unit_name r k ≠ nil) → ∃ res, infer_base_unit r ord a = Ok res.
 Proof. exact (infer_base_defined r ord a). Qed.
+Theorem C15_infer_base_assert_defined_guarded r ord a :
+  (∀ k, k ∈ present a ord → ∃ p b, parse_unit_name r k = (p, b) :: nil) →
+  ∃ res, infer_base_unit_assert r ord a = Ok res.
+Proof. exact (infer_base_assert_defined r ord a). Qed.
 (** F22 is a defect of float exponent arithmetic only: in exact exponents the reduction that
     needs thirds is defined (gill ** (1/3), the same dimensionality); its factor is a cube root,
     which pint computes in floats ([MApprox]) *)
@@ -261,8 +273,8 @@ Example C15_reduced_thirds_exact :
         | _, _, _ => false
         end) default_reg = true.
 Proof. vm_compute. reflexivity. Qed.
-(** [to_preferred]: 3 mile/hour with [m/s] preferred is a simple match and the guard holds (the
-    first dimension, [length], has exponent 1): the test as coded and the product test agree;
+(** [to_preferred]: 3 mile/hour with [m/s] preferred is a simple match (and the old guard holds:
+    the first dimension, [length], has exponent 1, so the old test and the product test agree);
     1 acre with [meter] preferred gives meter**2; (1 m) * (3 inch) under auto_reduce_dimensions
     is 15000/127 inch**2 *)
 Example C15_preferred_and_auto_nonvacuous :
@@ -278,5 +290,27 @@ Example C15_preferred_and_auto_nonvacuous :
             && uc_eqb (rq_u q4) (mkuc [("meter", mkq 2 1)]) && mag_eqb (rq_m q4) (MFin (mkq 62726400000 15499969))
             && uc_eqb (rq_u q3) (mkuc [("inch", mkq 2 1)]) && mag_eqb (rq_m q3) (MFin (mkq 15000 127))
         | _, _, _, _, _ => false
+        end) default_reg = true.
+Proof. vm_compute. reflexivity. Qed.
+
+(** the repaired simple match ([pow_defect = false], what pint runs since 75b5cc1): m**2*s with
+    [m/s] preferred is no match (the programme is consulted, here the trivial one), kg/m with
+    [kg*m] neither; m**2/s**2 with [m/s] IS a match now — (m/s)**2 — which the power test missed
+    ((-1)**2 = 1 is not -2); 2 mile**2/hour**2 -> 3903218/9765625 m**2/s**2 *)
+Example C15_repaired_simple_match :
+  (λ r, let mip := (λ (_ : reg) (q : rq) (_ : list uc), rq_u q) in
+        let ms := (cons (mkuc [("meter", mkq 1 1); ("second", mkq (-1) 1)]) nil) in
+        let kgm := (cons (mkuc [("kilogram", mkq 1 1); ("meter", mkq 1 1)]) nil) in
+        let d_m2s := mkuc [("[length]", mkq 2 1); ("[time]", mkq 1 1)] in
+        let d_v2 := mkuc [("[length]", mkq 2 1); ("[time]", mkq (-2) 1)] in
+        let d_kgm := mkuc [("[length]", mkq (-1) 1); ("[mass]", mkq 1 1)] in
+        let q := RQ (MFin (mkq 2 1)) ["mile"; "hour"] (mkuc [("mile", mkq 2 1); ("hour", mkq (-2) 1)]) in
+        match find_simple false r d_m2s ms, find_simple false r d_kgm kgm, find_simple false r d_v2 ms,
+              find_simple true r d_v2 ms, find_simple true r d_m2s ms, to_preferred mip false r q ms with
+        | Ok None, Ok None, Ok (Some u), Ok None, Ok (Some w), Ok q' =>
+            uc_eqb u (mkuc [("meter", mkq 2 1); ("second", mkq (-2) 1)])
+            && uc_eqb w u      (* the old test picked (m/s)**2 for m**2*s *)
+            && uc_eqb (rq_u q') u && mag_eqb (rq_m q') (MFin (mkq 3903218 9765625)) && exact_unitb r u
+        | _, _, _, _, _, _ => false
         end) default_reg = true.
 Proof. vm_compute. reflexivity. Qed.
